@@ -981,7 +981,7 @@ pub fn run(ctx: &Ctx) -> anyhow::Result<Report> {
 	if std::env::var_os("C17_PANIC_TRACE").is_some() { std::panic::set_hook(Box::new(|i| eprintln!("panic: {i}"))); }
 	let mut rng = Rng::new(ctx.seed);
 	r.shard_size = 16;
-	r.rule = "streams = class files alone and random concatenations of 2..4 of them read by successive read_class_multi calls on one cursor. Class files: corpus/C17 (javac 17, --release 8 and 17, with/without -g -parameters: records, sealed classes, annotations of every element kind, type annotations, lambdas, switches, module-info), the shared corpus/classes (javac r8/r11/r17, 260 third-party and JDK classes, crafted classes with unknown attributes at every level, Synthetic, SourceDebugExtension, predefined names at foreign locations; quick tier: every third file of the javac/JDK sample), /repo's fixtures, and classes freshly generated from the seed by fbh::classfile::gen with shuffled attribute order. Per stream: full visitor, class declined, no interests, every single-bit (thorough: and all-but-one) class / method / code interest mask, decline every k-th (k=1..3) field / method / visit_code / record component, per-member ALTERNATING masks (neighbouring methods / visit_code answers of one class get different interests: all|none, code|all-but-code, single bits, period 1 and 2, with every third method declined; fields / record components alternately accepted), random per-member masks and decline choices. A rotating sixth of the configurations (and every alternating one) additionally through duke's ready-made visitors: `()` (position), a SimpleClassVisitor (interests fields + methods; projection oracle), the leanest visitor (fields Infallible, annotations / unknown attributes into (), default visit_instruction; max_stack / max_locals / exception table / line numbers / local variables against the projection), and ClassFile::accept into () and into the SimpleClassVisitor. One evaluation = one (stream, configuration) run through the real reader with the projection, position and masked-replay oracles; one correspondence case = one stream with its configurations (quick: a rotating fifth of them, thorough: two thirds) through the Coq model — event trace, stream positions, and the ROWS of every line-number / local-variable table and exception table handed to a code visitor (labels as bytecode offsets, names / descriptors / signatures by checksum against the pool entry the model's row designates; same rows, same order) — which also checks that the stream decodes to well-formed class structures (the hypothesis of the theorems). Replay: for every single-class stream the tree of duke::read_class is replayed (ClassFile::accept) into the tree builder (must give an equal tree), into the full recording visitor and into every configuration's recording visitor; oracle = the replayed trace equals the trace of reading the bytes with the same visitor (attribute-level events of one item as a multiset, members and instructions in order, contents by debug text), with the known class F20a (annotations attribute without annotations) recognised by a relaxed comparison PLUS the class file actually containing such an attribute (a LocalVariable(Type)Table without rows — the former F20b — is compared like everything else: an empty table reaches exactly the visitors interested in both tables, reading and replaying), and classes with a duplicated merged attribute counted as outside the hypothesis; one `replay-*` correspondence case per class = the recorded accept traces (quick: a rotating fifth of the configurations) against the Coq model of accept() in accept()'s own order, model tree builder succeeds iff duke's does, rebuilt tree equal. Edge inputs (stream kind `edge`): edits of generated classes and of corpus/C17 through fbh::classfile::raw — present-but-empty annotation lists at every level, empty InnerClasses / NestMembers / PermittedSubclasses / Record / Exceptions / MethodParameters, LineNumberTable / LocalVariableTable / LocalVariableTypeTable / StackMapTable without rows (alone and next to tables with rows), flags-only Deprecated / Synthetic, Signature at every level, an annotations attribute twice in one item, the ROWS of a Code's LocalVariableTable / LocalVariableTypeTable / LineNumberTable redistributed over several attributes in other orders (type table before table, one attribute per row shuffled, halves alternating, a type table between two tables; a type table synthesised where the class has none), a CLDC `StackMap` attribute with 0..3 entries in ascending / descending / mixed offset order; corpus/C17/replay/*.class are the witnesses of the Coq refutation theorems byte for byte. The CALLER's reader (stream kinds `concat*` and `decline*`: 2..4 class files, mostly small, some streams longer than 8 / 16 / 64 KiB): EVERY accept / decline pattern over the classes (declined first, last, in the middle, several in a row; accepted classes read without interests, by a random partial visitor or by the full visitor), each pattern read from a std::io::Cursor, from a Read + Seek reader written in the harness that keeps its own position from the calls it receives and counts them, and from the same reader handing out 1..5 bytes per read call; after EVERY call the position of the reader the harness owns is read again and must be the end of that class; all three readers must answer alike; the Cursor answers of every pattern go to the Coq model (positions and traces). Successive duke::read_class calls on one reader (three reader kinds) and ONE Vec<ClassFile> handed from read_class_multi call to call: each class equal to the class read alone, position behind it. The class header handed to visit_class is the same for every visitor. Parsed VALUES: for RuntimeVisible/InvisibleAnnotations (element_value trees of every kind, nested), RuntimeVisible/InvisibleTypeAnnotations at class, field, method and Code level (target_type and target_info from the TargetInfo* variant handed over, labels as bytecode offsets, type_path, annotation; all 23 target variants and all four path kinds occur; edge kind `type-annotation-values`: per location every admitted target type with indices 0 / 255 / 65534 / 65535, local-variable targets without rows / spanning the whole code / several rows, paths empty, of each kind, mixed and 255 entries long), AnnotationDefault, Signature, SourceFile and the attributes that are rows of pool indices (InnerClasses, EnclosingMethod, NestHost, NestMembers, PermittedSubclasses, ModuleMainClass, ModulePackages, Exceptions, MethodParameters) the recording visitors flatten what they were handed (duke's public Annotation / ElementValue / Object / InnerClass … values; strings as checksums, numeric constants as bits) and the Coq model parses the same value from the attribute body and the constant pool — compared on every event of every correspondence case, for reads and for replays, at class, field and method level; edge kind `annotation-values`: byte / char / short / boolean constants over WIDE int entries (narrowing), NaNs with payloads, extreme longs, empty / non-ASCII strings, empty arrays, annotations without pairs, repeated pair names, nesting 1..6 and exactly 64 deep (the reader's limit). If the full visitor cannot read more than a tenth of the streams the run reports that with the first such stream (otherwise such streams are outside the property and only counted). Non-trivial = duke reads every class of the stream with the full visitor; distinct by stream bytes.".into();
+	r.rule = "streams = class files alone and random concatenations of 2..4 of them read by successive read_class_multi calls on one cursor. Class files: corpus/C17 (javac 17, --release 8 and 17, with/without -g -parameters: records, sealed classes, annotations of every element kind, type annotations, lambdas, switches, module-info), the shared corpus/classes (javac r8/r11/r17, 260 third-party and JDK classes, crafted classes with unknown attributes at every level, Synthetic, SourceDebugExtension, predefined names at foreign locations; quick tier: every third file of the javac/JDK sample), /repo's fixtures, and classes freshly generated from the seed by fbh::classfile::gen with shuffled attribute order. Per stream: full visitor, class declined, no interests, every single-bit (thorough: and all-but-one) class / method / code interest mask, decline every k-th (k=1..3) field / method / visit_code / record component, per-member ALTERNATING masks (neighbouring methods / visit_code answers of one class get different interests: all|none, code|all-but-code, single bits, period 1 and 2, with every third method declined; fields / record components alternately accepted), random per-member masks and decline choices. A rotating sixth of the configurations (and every alternating one) additionally through duke's ready-made visitors: `()` (position), a SimpleClassVisitor (interests fields + methods; projection oracle), the leanest visitor (fields Infallible, annotations / unknown attributes into (), default visit_instruction; max_stack / max_locals / exception table / line numbers / local variables against the projection), and ClassFile::accept into () and into the SimpleClassVisitor. One evaluation = one (stream, configuration) run through the real reader with the projection, position and masked-replay oracles; one correspondence case = one stream with its configurations (quick: a rotating fifth of them, thorough: two thirds) through the Coq model — event trace, stream positions, and the ROWS of every line-number / local-variable table and exception table handed to a code visitor (labels as bytecode offsets, names / descriptors / signatures by checksum against the pool entry the model's row designates; same rows, same order) — which also checks that the stream decodes to well-formed class structures (the hypothesis of the theorems). Replay: for every single-class stream the tree of duke::read_class is replayed (ClassFile::accept) into the tree builder (must give an equal tree), into the full recording visitor and into every configuration's recording visitor; oracle = the replayed trace equals the trace of reading the bytes with the same visitor (attribute-level events of one item as a multiset, members and instructions in order, contents by debug text), with the known class F20a (annotations attribute without annotations) recognised by a relaxed comparison PLUS the class file actually containing such an attribute (a LocalVariable(Type)Table without rows — the former F20b — is compared like everything else: an empty table reaches exactly the visitors interested in both tables, reading and replaying), and classes with a duplicated merged attribute counted as outside the hypothesis; one `replay-*` correspondence case per class = the recorded accept traces (quick: a rotating fifth of the configurations) against the Coq model of accept() in accept()'s own order, model tree builder succeeds iff duke's does, rebuilt tree equal. Edge inputs (stream kind `edge`): edits of generated classes and of corpus/C17 through fbh::classfile::raw — present-but-empty annotation lists at every level, empty InnerClasses / NestMembers / PermittedSubclasses / Record / Exceptions / MethodParameters, LineNumberTable / LocalVariableTable / LocalVariableTypeTable / StackMapTable without rows (alone and next to tables with rows), flags-only Deprecated / Synthetic, Signature at every level, an annotations attribute twice in one item, the ROWS of a Code's LocalVariableTable / LocalVariableTypeTable / LineNumberTable redistributed over several attributes in other orders (type table before table, one attribute per row shuffled, halves alternating, a type table between two tables; a type table synthesised where the class has none), a CLDC `StackMap` attribute with 0..3 entries in ascending / descending / mixed offset order; corpus/C17/replay/*.class are the witnesses of the Coq refutation theorems byte for byte. The CALLER's reader (stream kinds `concat*` and `decline*`: 2..4 class files, mostly small, some streams longer than 8 / 16 / 64 KiB): EVERY accept / decline pattern over the classes (declined first, last, in the middle, several in a row; accepted classes read without interests, by a random partial visitor or by the full visitor), each pattern read from a std::io::Cursor, from a Read + Seek reader written in the harness that keeps its own position from the calls it receives and counts them, and from the same reader handing out 1..5 bytes per read call; after EVERY call the position of the reader the harness owns is read again and must be the end of that class; all three readers must answer alike; the Cursor answers of every pattern go to the Coq model (positions and traces). Successive duke::read_class calls on one reader (three reader kinds) and ONE Vec<ClassFile> handed from read_class_multi call to call: each class equal to the class read alone, position behind it. The class header handed to visit_class is the same for every visitor. Parsed VALUES: for RuntimeVisible/InvisibleAnnotations (element_value trees of every kind, nested), RuntimeVisible/InvisibleTypeAnnotations at class, field, method and Code level (target_type and target_info from the TargetInfo* variant handed over, labels as bytecode offsets, type_path, annotation; all 23 target variants and all four path kinds occur; edge kind `type-annotation-values`: per location every admitted target type with indices 0 / 255 / 65534 / 65535, local-variable targets without rows / spanning the whole code / several rows, paths empty, of each kind, mixed and 255 entries long), AnnotationDefault, Signature, SourceFile and the attributes that are rows of pool indices (InnerClasses, EnclosingMethod, NestHost, NestMembers, PermittedSubclasses, ModuleMainClass, ModulePackages, Exceptions, MethodParameters) the recording visitors flatten what they were handed (duke's public Annotation / ElementValue / Object / InnerClass … values; strings as checksums, numeric constants as bits) and the Coq model parses the same value from the attribute body and the constant pool — compared on every event of every correspondence case, for reads and for replays, at class, field and method level; likewise ConstantValue (the variant handed over — through duke's own field builder — as the tag of the pool entry kind it stands for, written in the harness independently of duke's constants, and the bits of the number / the checksum of the string: int, float, long, double and String constants occur) and Module (name, flags, version, requires, exports, opens, uses, provides with their nested vectors; the rows of requires / exports / opens have crate-private fields and are read off their debug text, a Module whose strings there would need an escape is compared by name only) against the model's attr_value2 (edge kind `module-flags`: every flags word of a Module attribute — module, requires, exports, opens — set to single bits incl. the ones duke's flag types do not keep, all bits, random words); edge kind `annotation-values`: byte / char / short / boolean constants over WIDE int entries (narrowing), NaNs with payloads, extreme longs, empty / non-ASCII strings, empty arrays, annotations without pairs, repeated pair names, nesting 1..6 and exactly 64 deep (the reader's limit). If the full visitor cannot read more than a tenth of the streams the run reports that with the first such stream (otherwise such streams are outside the property and only counted). Non-trivial = duke reads every class of the stream with the full visitor; distinct by stream bytes.".into();
 
 	let mut classes = load_classes(&mut r);
 	if classes.is_empty() { anyhow::bail!("no class files found"); }
